@@ -277,7 +277,15 @@ class Replayer:
             return
         else:
             raise RuntimeError('unknown outcome kind ' + kind)
-        if kind in ('q', 'plain', 'none') and not self.same_value(got, out['val']):
+        if e['f'] == 'operator.mod' and kind in ('q', 'plain'):
+            # float modulo is discontinuous: x % y may come out as ~0 or ~y where the exact result is 0 (and vice versa)
+            want = numpy.asarray(plain_value(out['val']), dtype=float)
+            y = numpy.abs(numpy.asarray(self.unwrap(args[1]), dtype=float))
+            d = numpy.abs(numpy.asarray(got, dtype=float) - want)
+            if numpy.shape(d) != numpy.shape(want) or not numpy.all(numpy.minimum(d, numpy.abs(d - y)) <= 1e-12 * numpy.maximum(y, 1)):
+                self.bad(e, 'wrong-value', 'expected {} (mod {}) in reference units, got {!r}'.format(want, y, got))
+                return
+        elif kind in ('q', 'plain', 'none') and not self.same_value(got, out['val']):
             self.bad(e, 'wrong-value', 'expected {} in reference units, got {!r}'.format(plain_value(out['val']), got))
             return
         if isinstance(shadow, Exception):
